@@ -1,7 +1,7 @@
 (* C16 -- The controller acts only on resources of its own class.
    Only statements, each closed by [exact] and followed by Print Assumptions. *)
 From Coq Require Import List ZArith String Bool.
-From NIC Require Import Base.SMap Arb.Types Arb.Model Arb.Spec Arb.InvProofs Arb.ClassProofs Arb.Cases.
+From NIC Require Import Base.SMap Arb.Types Arb.Model Arb.Spec Arb.InvProofs Arb.ClassProofs Arb.Cases Arb.ReportProofs.
 Import ListNotations.
 Open Scope Z_scope.
 
@@ -29,6 +29,23 @@ Theorem C16_state_is_function_of_own_objects : forall c es, full_inv c (run c es
 Proof. exact run_full_inv. Qed.
 Print Assumptions C16_state_is_function_of_own_objects.
 
+(* Whom the controller talks to.  [step_reports c es e] are the reports (success, rejection, problem) the
+   controller derives from the changes and problems of event [e] after history [es] -- the transcription of
+   processChanges / processProblems that the controller-level correspondence compares with the Events
+   recorded by the real LoadBalancerController.sync.  For every history and every event: no report names
+   an object that is of a foreign class in the cluster at that moment (the object of the event included:
+   a served resource that moves to a foreign class is removed without a word, whatever warnings it carried). *)
+Theorem C16_reports_never_name_foreign :
+  forall c es e k r, In (k, r) (step_reports c es e) -> foreign_in_cluster (cluster (es ++ [e])) k = false.
+Proof. exact reports_never_foreign. Qed.
+Print Assumptions C16_reports_never_name_foreign.
+
+(* every stored object is the most recent version of that object in the cluster and arrived with the
+   controller's class and valid *)
+Theorem C16_stored_objects_are_own : forall es, stored_own (cluster es) (objs_after es).
+Proof. exact stored_objects_are_own. Qed.
+Print Assumptions C16_stored_objects_are_own.
+
 (* the class predicate (specification used on the implementation): for an Ingress the deprecated
    annotation takes precedence over the class field; an Ingress without any class is not ours *)
 Example C16_annotation_precedence :
@@ -46,4 +63,13 @@ Example C16_nonvacuous :
   let es := [EVS (nV 1) true true; EIng nI true true; EVS (nV 2) false true] in
   map (fun kv => (fst kv, rkey (snd kv))) (hosts (run (mkCfg true true) es)) = [("h.example.com"%string, "Ingress/ns/i"%string)] /\
   map erase es = [EVS (nV 1) true true; EIng nI true true; EDelVS "ns/v"].
+Proof. vm_compute. auto. Qed.
+
+(* Non-vacuity of the report theorem: in the history above the VirtualServer holds a host the Ingress also
+   claims; when the VirtualServer moves to a foreign class the only report of that step goes to the Ingress
+   (which now serves the host); the VirtualServer, although still in the cluster, is not named. *)
+Example C16_reports_nonvacuous :
+  let es := [EVS (nV 1) true true; EIng nI true true] in
+  map fst (step_reports (mkCfg true true) es (EVS (nV 2) false true)) = ["Ingress/ns/i"%string] /\
+  foreign_in_cluster (cluster (es ++ [EVS (nV 2) false true])) "VirtualServer/ns/v" = true.
 Proof. vm_compute. auto. Qed.
